@@ -246,6 +246,63 @@ def core_vectors(ctx):
                      key="core.script_tests", op_line=v["line"][:600], impl=want, model=out)
 
 
+def tx_vectors(ctx):
+    """Core's tx_valid / tx_invalid through the transcription (must give Core's verdict: validation of the
+    specification) and through the real engine (must agree with the transcription input by input)."""
+    from btclib.script import engine as E
+    vecs = SP.core_tx_vectors()
+    work = [v["line"] for v in vecs]
+    outs = [None] * len(vecs)
+    pending = list(range(len(vecs)))
+    for _ in range(64):
+        res = ctx.model(EXE, [work[i] for i in pending])
+        if res is None:
+            return
+        nxt = []
+        for i, r in zip(pending, res):
+            if r.startswith("need "):
+                work[i] = SP.answer(work[i], r[5:], vec=vecs[i])
+                nxt.append(i)
+            else:
+                outs[i] = r
+        pending = nxt
+        if not pending:
+            break
+    st = ctx.streams.setdefault("core.tx_vectors", {"cases": 0, "mismatches": 0, "model": EXE})
+    st2 = ctx.streams.setdefault("core.tx_vectors.engine", {"cases": 0, "mismatches": 0, "model": EXE})
+    groups = {}
+    for v, out, ln in zip(vecs, outs, work):
+        groups.setdefault((v["file"], v["index"]), []).append(out)
+        # the real engine on the same input
+        try:
+            E.verify_input(v["prevouts"], v["tx"], v["i"], SP.flags_of(v["flags"]))
+            io = "ok"
+        except Exception as e:  # noqa: BLE001
+            io = SP._refusal(e, True)
+        st2["cases"] += 1
+        ctx.seen("core.tx_vectors.engine", v["line"], True)
+        ctx.count("core.tx_vectors.engine", io)
+        ctx.traces += 1
+        if io != out:
+            st2["mismatches"] += 1
+            key = SP.classify_vector(ln, io, out, v)
+            ctx.fail("property", "core.tx_vectors.engine",
+                     f"engine and Core transcription differ on input {v['i']} of {v['file']} #{v['index']}",
+                     key=key, op_line=v["line"][:3000], impl=io, model=out)
+    for (fname, index), os_ in groups.items():
+        st["cases"] += 1
+        ctx.seen("core.tx_vectors", f"{fname}#{index}", True)
+        all_ok = all(o == "ok" for o in os_)
+        want = fname == "tx_valid.json"
+        ctx.count("core.tx_vectors", fname + (":ok" if all_ok else ":refused"))
+        ctx.traces += 1
+        if all_ok != want:
+            st["mismatches"] += 1
+            ctx.fail("correspondence", "core.tx_vectors",
+                     f"Core vector {fname} #{index} expects {'valid' if want else 'invalid'}, transcription says {os_}",
+                     key="core.tx_vectors", op_line=f"{fname}#{index}", impl=str(want), model=str(os_))
+
+
 def run(ctx):
     rng = ctx.rng
     shared.validate_hashes(ctx, EXE)
@@ -279,6 +336,7 @@ def run(ctx):
 
     # ---- spec validation on Core's vectors
     core_vectors(ctx)
+    tx_vectors(ctx)
 
     # ---- layer 4: EvalScript, signature-free programs
     SP.run_eval(ctx, spec)
